@@ -16,7 +16,7 @@ from harness.tlc import run_tlc, tla, SPEC_DIR, TLCResult
 from harness.tracer import Tracer
 
 EVENT_KEYS = ['act', 'arg', 'raised', 'ndec', 'steps', 'chA', 'chG', 'accA',
-              'accG', 'hasInv', 'uniform']
+              'accG', 'accKnown', 'hasInv', 'uniform']
 
 
 def _cfg_key(c: dict[str, Any]) -> str:
